@@ -83,11 +83,21 @@ def run(tier):
                 seed = r.randrange(1 << 30)
                 same_path = r.random() < 0.5
                 todo.append((ds, ncd, seed, "p%d.vpp" % i, "first"))
-                todo.append((vppsynth.revise(r, ds), ncd, seed, "p%d.vpp" % i if same_path else "p%dr.vpp" % i, "revision"))
+                # ... or the revision under a name that is the percent-encoding of the first one's (Lamp v2.vpp / Lamp%20v2.vpp)
+                rev_name = ("p%d.vpp" % i if same_path else "p%dr.vpp" % i) if r.random() < 0.7 else None
+                if rev_name is None:
+                    todo[-1] = (ds, ncd, seed, "Lamp v%d.vpp" % i, "first")
+                    rev_name = "Lamp%%20v%d.vpp" % i
+                todo.append((vppsynth.revise(r, ds), ncd, seed, rev_name, "revision"))
             else:
-                todo.append((ds, ncd, None, "p%d.vpp" % i, None))
+                # project files are where the user put them: blanks, '#', '?', '%', a sub-folder
+                fname = "p%d.vpp" % i if r.random() < 0.6 else r.choice(["Rev #2/p%d.vpp", "what?/p%d.vpp", "100%% done/p%d.vpp", "my projects/p %d.vpp", "a&b=c/p%d.vpp", "\u00fcbung/p%d.vpp"]) % i
+                todo.append((ds, ncd, None, fname, None))
         for (ds, ncd, seed, fname, role) in todo:
             path = os.path.join(base, fname)
+            os.makedirs(os.path.dirname(path), exist_ok=True)
+            if fname != "p%d.vpp" % 0 and not fname.startswith("p"):
+                oc.stat("project_paths_with_special_characters")
             vppsynth.write_project(r, path, ds, class_diagrams=ncd, id_seed=seed)
             tabs = vppsynth.dump_tables(path)
             if role:
